@@ -112,7 +112,7 @@ static void ed_mul_naf_imp(ed_t r, const ed_t p, const bn_t k) {
 static void ed_mul_reg_imp(ed_t r, const ed_t p, const bn_t k) {
 	bn_t _k;
 	int i, j, n;
-	int8_t s, reg[RLC_CEIL(RLC_FP_BITS + 1, RLC_WIDTH - 1)];
+	int8_t s, reg[1 + RLC_CEIL(RLC_FP_BITS + 1, RLC_WIDTH - 1)];
 	ed_t t[1 << (RLC_WIDTH - 2)], u, v;
 	size_t l;
 
